@@ -60,6 +60,7 @@ def build_harness(scr, race=False):
 
 
 def run_vh(binary, args, timeout=1200, env=None, stdout=None):
+    timeout = max(timeout, 2400)   # see run_tlc: only a guard against a harness that never ends
     e = dict(os.environ)
     # temporary files of the harness live inside the scratch directory of the check (next to the binary), so that
     # they disappear with it even when the harness process is killed or dies on a race report
@@ -92,6 +93,9 @@ class TLCResult:
 def run_tlc(scr, specdir, module, cfg_text, name, workers=8, timeout=900, heap="8g", simulate=None, seed=None,
             depth=None, extra=None, gcthreads=4, to_file=False, deadlock=False, queue_dfs=False, coverage=False):
     """Runs TLC in a private copy of specdir. cfg_text is the complete .cfg contents."""
+    # a time limit only guards against a run-away model: on a loaded or small machine the bounded models take several
+    # times their usual seconds, and a limit that is hit turns a sound check into a broken one
+    timeout = max(timeout, 2400)
     wd = scr.path("tlc-" + name)
     if not os.path.isdir(wd):
         shutil.copytree(os.path.join(VERIF, "spec", specdir), wd)
@@ -270,6 +274,7 @@ def finish(out):
 # ---------------------------------------------------------------- Apalache
 def run_apalache(scr, specdir, module, args, name, timeout=600, mutate=None):
     """Runs apalache-mc check in a private copy; returns 'NoError' | 'Error' | 'Broken:<msg>'."""
+    timeout = max(timeout, 1800)
     wd = scr.path("apa-" + name)
     if not os.path.isdir(wd):
         shutil.copytree(os.path.join(VERIF, "spec", specdir), wd)
